@@ -31,6 +31,15 @@ Theorem C02_ciphertext_fits : forall (maxb : nat) (E : bytes -> bytes -> bytes -
 Proof. exact ciphertext_bound. Qed.
 Print Assumptions C02_ciphertext_fits.
 
+(* The ciphertext lengths of a published file, in N arithmetic: floor(|f|/(maxb-1)) blobs of 16*((maxb-1)/16+1) bytes
+   and one of 16*(r/16+1) for the remainder r > 0 (the function the harness evaluates on true 2 MiB runs). *)
+Theorem C02_ciphertext_lengths : forall H E (maxb : nat) name key ivf f,
+  (forall k iv p, length (E k iv p) = (16 * (length p / 16 + 1))%nat) -> (2 <= maxb)%nat ->
+  map (fun c => N.of_nat (length c)) (s_cts (build_stream H E maxb name key ivf f)) =
+  expected_lengths (N.of_nat maxb) (N.of_nat (length f)).
+Proof. exact ciphertext_lengths. Qed.
+Print Assumptions C02_ciphertext_lengths.
+
 (* Round trip: for every file (the empty one included), key, IV sequence and name, decrypting the data blobs in
    descriptor order with the descriptor's key and IVs gives the file back. *)
 Theorem C02_roundtrip : forall H E D (maxb : nat) (name : list N) (key : bytes) (ivf : nat -> bytes) (f : bytes),
@@ -74,6 +83,22 @@ Theorem C02_commitments : forall H E (maxb : nat) name key ivf f,
   s_sd_hash s = hex (H (s_sd_blob s)).
 Proof. exact commitments. Qed.
 Print Assumptions C02_commitments.
+
+(* sd_hash binds the descriptor: two descriptors whose text fields print without JSON escapes (hex does) and whose
+   sd hashes are equal have the same names, key, stream hash and blob entries -- or an explicit H collision.
+   (blob hashes compared through BlobInfo.as_dict, which itself identifies None and ''.)  Every descriptor that
+   create_stream builds is of that kind. *)
+Theorem C02_sd_hash_binding : forall H d1 d2, plain_desc d1 -> plain_desc d2 -> sd_hash H d1 = sd_hash H d2 ->
+  (d_name d1 = d_name d2 /\ d_key d1 = d_key d2 /\ d_sugg d1 = d_sugg d2 /\ d_shash d1 = d_shash d2 /\
+   map as_dict (d_blobs d1) = map as_dict (d_blobs d2)) \/ (exists x y : bytes, x <> y /\ H x = H y).
+Proof. exact sd_hash_binding. Qed.
+Print Assumptions C02_sd_hash_binding.
+
+Theorem C02_created_plain : forall H E (maxb : nat) name key ivf f,
+  (forall x, length (H x) = 48%nat) -> (forall k iv p, length (E k iv p) = (16 * (length p / 16 + 1))%nat) ->
+  plain_desc (s_desc (build_stream H E maxb name key ivf f)).
+Proof. exact created_plain. Qed.
+Print Assumptions C02_created_plain.
 
 (* Two descriptors with 32-character keys and IVs, 96-character blob hashes, blobs numbered by position, names of
    equal length and the same stream hash are equal -- or the proof exhibits x <> y with H x = H y. *)
@@ -139,10 +164,10 @@ Print Assumptions C02_validate_refuses.
 (* ... and every descriptor create_stream builds is accepted when its sd blob is loaded back. *)
 Theorem C02_validate_accepts_created : forall H E (maxb : nat) name key ivf f,
   (forall x, length (H x) = 48%nat) -> (forall k iv p, length (E k iv p) = (16 * (length p / 16 + 1))%nat) ->
-  utf8_ok (utf8_enc name) = true -> utf8_ok (utf8_enc (sanitize name)) = true ->
+  Forall (fun c => c < 55296 \/ (57344 <= c /\ c < 1114112))%N name ->      (* Unicode scalar values *)
   let d := s_desc (build_stream H E maxb name key ivf f) in
   validate H (to_sdj d) = Ok d.
-Proof. exact validate_accepts_created. Qed.
+Proof. exact validate_accepts_created_scalar. Qed.
 Print Assumptions C02_validate_accepts_created.
 
 (* For ALL names (lists of code points): the sanitised name is non-empty and none of its code points is below 32
@@ -157,6 +182,8 @@ Print Assumptions C02_sanitize_safe.
 (* ---- non-vacuity: concrete instances (H = identity padded is not needed: structural facts only) ---- *)
 Example C02_ex_split : split 4 (bytes_of_Ns [1; 2; 3; 4; 5; 6; 7]%N) =
   [bytes_of_Ns [1; 2; 3]%N; bytes_of_Ns [4; 5; 6]%N; bytes_of_Ns [7]%N].
+Proof. vm_compute. reflexivity. Qed.
+Example C02_ex_lengths : expected_lengths 2097152 4194303 = [2097152; 2097152; 16]%N.
 Proof. vm_compute. reflexivity. Qed.
 Example C02_ex_sanitize_con : sanitize [67; 79; 78; 46; 116; 120; 116]%N = default_name ++ [46; 116; 120; 116]%N.
 Proof. vm_compute. reflexivity. Qed.
